@@ -84,6 +84,8 @@ def kind_of_T(t):
         return ('tup', tuple(kind_of_T(x) for x in t.ts))
     if isinstance(t, C.ListOf):
         return ('seq', kind_of_T(t.t))
+    if isinstance(t, C.ExtT) and hasattr(t, 'kind'):
+        return t.kind()
     if isinstance(t, C.Rec):
         return ('rec', t.elem)
     raise Unsupported(f'type {t!r} has no element kind')
@@ -128,6 +130,9 @@ class LoopSpec:
         # visible locals of the current activation override parameters of the same name
         for fr in reversed(path.scope):
             env.update(path.obj(fr).vars)
+        for n, t in self.locals_t.items():
+            if isinstance(t, C.OrUnbound) and n not in env:
+                env[n] = C.UNBOUND
         env['old'] = OldView(path.entry_env, 'old')
         return env
 
@@ -173,7 +178,13 @@ class LoopSpec:
                         raise Unsupported(f'loop mutates the local container {recv.id!r} in place: declare its type in loop_locals')
                     names.add(recv.id)
         for n in sorted(names):
-            if n in self.locals_t:
+            if n in self.locals_t and isinstance(self.locals_t[n], C.OrUnbound):
+                # first assigned in the body: unbound (no iteration got that far yet) or bound -- both are explored
+                if path.decide([True, True], f'local {n} unbound/bound') == 0:
+                    vars.pop(n, None)
+                else:
+                    vars[n] = self.cfg.fresh(path, self.locals_t[n].t, n)
+            elif n in self.locals_t:
                 vars[n] = self.cfg.fresh(path, self.locals_t[n], n)
             elif n in vars:
                 vars[n] = self.cfg.havoc_like(path, vars[n], n)
